@@ -414,8 +414,8 @@ func randomScen() scen {
 		// records sized to end exactly at / one unit before the end of page 1
 		first := roundUp(H+4+4*numHash, unit)
 		room := pageSize - first // multiple of 32
-		// three fillers of 4128 bytes, then a name that would end exactly at the page end
-		fill := 3 * 4128
+		// three fillers of 4096 bytes, then a name that would end exactly at the page end
+		fill := 3 * 4096 // record size of a 4080-byte name
 		rest := int(room) - fill                                 // bytes left on page 1
 		exact := sc.pl.add(findName("TE", rest-16, -1, nil))     // record size == rest: reaches the page end -> next page
 		fits := sc.pl.add(findName("TF", rest-16-32, -1, nil))   // one unit less: last record that fits
